@@ -31,11 +31,9 @@ def body(chk: core.Check):
                     "(exercised concretely by the C05 harness: class_, from_)"]
     chk.assumptions.append("file names and module names come from stated menus (CrossHair part)")
     if chk.only("renamers"):
-        _renamers.check_field_name(chk, quick)
-        _renamers.check_http_body(chk, quick)
-        _renamers.check_method_names(chk, quick)
-        _renamers.check_field_header_disambiguated(chk, quick)
-        _renamers.check_convert_uri(chk, quick)
+        core.parallel_parts(chk, [(_renamers.check_field_name, quick), (_renamers.check_http_body, quick),
+                                  (_renamers.check_method_names, quick), (_renamers.check_field_header_disambiguated, quick),
+                                  (_renamers.check_convert_uri, quick)])
     if chk.only("wire"):
         # RPC path on the wire stays the original (keyword-named / transport-unsafe RPCs): concrete diff of the emitted
         # gRPC stub tables against the descriptors, shared with C03
